@@ -541,6 +541,40 @@ theorem ep_never_handed_out_again (s : St) (e : Nat) (he : e < s.neps)
 example : ∃ s : St, 0 < s.neps ∧ (s.eps 0).dead = true :=
   ⟨run init [.goc 0 false 1000 none none 0 .ok, .write 0 .err], by decide, by decide⟩
 
+/-- **Invalidated before carrying traffic ⇒ not handed out, already inside the invalidation
+window.**  Right after the epoch bump of `InvalidateDialerNetworkType(d)` — before any endpoint has
+been retired — an endpoint of dialer `d` that was of the current generation and has neither sent
+nor received is refused by `GetOrCreate` (it dials a replacement or fails) and by `Get`, although
+it is still alive and pooled. -/
+theorem ep_stale_generation_not_handed_out (s : St) (d c e : Nat)
+    (hc : s.curCtr d = some c) (he : (s.eps e).ctr = c) (hf : (s.eps e).failed = false)
+    (hg : (s.eps e).gen = s.ctrVal c) (hs : (s.eps e).survives = false)
+    (k : Nat) (sym : Bool) (nat : Nat) (owner drain : Option Nat) (d' : Nat) (out : DialOutcome) :
+    (getOrCreate (invalBump s d) k sym nat owner drain d' out).2 ≠ .hit e ∧ EP.get (invalBump s d) k ≠ some e := by
+  have hst : invalBump s d = bumpEpoch s c := by
+    unfold invalBump epochCounter; rw [hc]
+  have hgen : genCurrent (invalBump s d) ((invalBump s d).eps e) = false := by
+    rw [hst]
+    show genCurrent (bumpEpoch s c) (s.eps e) = false
+    unfold genCurrent bumpEpoch
+    simp [hf, hg, he]
+  have hsv : ((invalBump s d).eps e).survives = false := by rw [hst]; exact hs
+  have hiff := ep_handout_iff_usable (invalBump s d) k sym nat owner drain d' out e
+  constructor
+  · intro h
+    obtain ⟨_, _, _, h4⟩ := hiff.1.mp h
+    cases h4 with
+    | inl h4 => rw [hgen] at h4; cases h4
+    | inr h4 => rw [hsv] at h4; cases h4
+  · intro h
+    obtain ⟨_, _, _, h4⟩ := hiff.2.mp h
+    cases h4 with
+    | inl h4 => rw [hgen] at h4; cases h4
+    | inr h4 => rw [hsv] at h4; cases h4
+
+example : (getOrCreate (invalBump (getOrCreate init 0 false 1000 none none 0 .ok).1 0) 0 false 1000 none none 0 .ok).2
+    = .created 1 := by decide
+
 /-- `retire()` leaves the endpoint dead and closed, and the pool no longer maps its key to it. -/
 theorem ep_retire_spec (s : St) (e : Nat) :
     ((retire s e).eps e).dead = true ∧ ((retire s e).eps e).closed = true ∧
